@@ -316,6 +316,38 @@ impl Sink {
     }
 }
 
+/// Byte sink with a `write_vectored` of its own that gathers the buffers but takes at most `cap`
+/// bytes per call (a socket, a pipe): a short count may end inside any of the buffers.
+struct GatherSink {
+    out: Vec<u8>,
+    cap: usize,
+}
+
+impl std::io::Write for GatherSink {
+    fn write(&mut self, buf: &[u8]) -> std::io::Result<usize> {
+        let n = buf.len().min(self.cap);
+        self.out.extend_from_slice(&buf[..n]);
+        Ok(n)
+    }
+    fn write_vectored(&mut self, bufs: &[std::io::IoSlice<'_>]) -> std::io::Result<usize> {
+        let mut left = self.cap;
+        let mut n = 0;
+        for b in bufs {
+            let k = b.len().min(left);
+            self.out.extend_from_slice(&b[..k]);
+            n += k;
+            left -= k;
+            if left == 0 {
+                break;
+            }
+        }
+        Ok(n)
+    }
+    fn flush(&mut self) -> std::io::Result<()> {
+        Ok(())
+    }
+}
+
 impl std::io::Write for Sink {
     fn write(&mut self, buf: &[u8]) -> std::io::Result<usize> {
         self.calls += 1;
@@ -400,6 +432,26 @@ fn render<T: DiffableStr + ?Sized>(
             }
         }
         if header && alg == Algorithm::Myers {
+            for cap in [1usize, 2, 3, 5] {
+                let mut g = GatherSink { out: vec![], cap };
+                if let Err(e) = u.to_writer(&mut g) {
+                    panic!("to_writer into a gathering writer accepting {} byte(s) per call fails: {}", cap, e);
+                }
+                if g.out != written {
+                    panic!(
+                        "to_writer into a writer with its own write_vectored accepting {} byte(s) per call emits {} but into a Vec {}",
+                        cap,
+                        lossy(&g.out),
+                        lossy(&written)
+                    );
+                }
+            }
+            // a copy of the configured formatter, if the type can be copied at all
+            #[allow(noop_method_call, clippy::clone_on_copy)]
+            let copy = (&u).clone();
+            if copy.to_string() != display {
+                panic!("a clone of the configured UnifiedDiff renders differently from the original");
+            }
             let mut sink = Sink::new(2, false);
             {
                 let mut bw = std::io::BufWriter::with_capacity(5, &mut sink);
